@@ -44,7 +44,7 @@ TOL = 2e-5  # relative; observed worst 5e-7 (file paths), clone bit-identical. S
 # Object/probe arrays: file round trips are not bit-identical (contiguity changes the float32 summation order by 1 ulp),
 # and Adam-type optimizers amplify such round-off in pixels whose gradient is ~0 (probe tails): update = lr*g/(|g|+eps),
 # so a 1e-11 difference in g moves the pixel by lr*1e-11/1e-8. Observed worst over seeds {0,1,2,7,12345}: see ARRAY_TOL.
-ARRAY_TOL = {"sgd": 2e-4, "sgd_momentum": 2e-4, "adam": 1e-2, "adamw": 1e-2, "adam_eps": 2e-4}
+ARRAY_TOL = {"": 2e-4, "sgd": 2e-4, "sgd_momentum": 2e-4, "adam": 1e-2, "adamw": 1e-2, "adam_eps": 2e-4}
 
 OPTS = {
     "sgd": {"object": {"type": "sgd", "lr": 0.5}, "probe": {"type": "sgd", "lr": 1e-3}},
@@ -64,23 +64,34 @@ SCHEDS = {
 PATHS = [("raw", "zip"), ("raw", "dir"), ("noraw_dset", "zip"), ("noraw_dset", "dir"), ("clone", "-")]
 
 
-def cfg_for(obj_type, modes):
-    return {"obj_type": obj_type, "slices": 2 if obj_type == "potential" else 1, "modes": modes, "roi": [8, 8], "scan": [2, 3], "step": "fractional", "pad": [8, 8]}
+def cfg_for(obj_type, modes, learn=False):
+    return {"obj_type": obj_type, "slices": 2 if obj_type == "potential" else 1, "modes": modes, "roi": [8, 8], "scan": [2, 3], "step": "fractional", "pad": [8, 8], "learn_scan_positions": bool(learn), "learn_descan": bool(learn)}
 
 
-def build(obj_type, modes, seed):
+DATASET_OPT = {"sgd": {"type": "sgd", "lr": 1e-2}, "sgd_momentum": {"type": "sgd", "lr": 1e-2, "momentum": 0.5}, "adam": {"type": "adam", "lr": 1e-2}, "adamw": {"type": "adamw", "lr": 1e-2}, "adam_eps": {"type": "adam", "lr": 1e-2, "eps": 1e-3}}
+
+
+def opt_params(okind, learn):
+    o = copy.deepcopy(OPTS[okind])
+    if learn:
+        # the dataset model (scan positions, descan shifts) then owns parameters and optimizer state of its own
+        o["dataset"] = copy.deepcopy(DATASET_OPT[okind])
+    return o
+
+
+def build(obj_type, modes, seed, learn=False):
     from checks import _ptycho
 
     with warnings.catch_warnings():
         warnings.simplefilter("ignore")
-        P = _ptycho.build(cfg_for(obj_type, modes), np.random.default_rng([seed, 5, 1, modes]))
+        P = _ptycho.build(cfg_for(obj_type, modes, learn), np.random.default_rng([seed, 5, 1, modes]))
         P.set_object(_ptycho.perturb_object(P.obj_true, P.cfg, P.geo, "noise", np.random.default_rng([seed, 5, 2, modes])))
         P.set_probe(_ptycho.perturb_probe(P.probe_true, P.cfg, P.geo, "defocus"))
     return P
 
 
-def start(P, okind, sname):
-    P.ptycho.reconstruct(num_iters=0, reset=True, optimizer_params=copy.deepcopy(OPTS[okind]), scheduler_params=copy.deepcopy(SCHEDS[sname]))
+def start(P, okind, sname, learn=False):
+    P.ptycho.reconstruct(num_iters=0, reset=True, optimizer_params=opt_params(okind, learn), scheduler_params=copy.deepcopy(SCHEDS[sname]))
     return P.ptycho
 
 
@@ -92,6 +103,8 @@ def observe(pt):
         "lrs": {k: np.array(v, dtype=np.float64) for k, v in sorted(lrs.items())},
         "obj": np.array(pt.obj),
         "probe": np.array(pt.probe),
+        "positions": pt.dset.scan_positions_px.detach().cpu().numpy().astype(np.float64).copy(),
+        "descan": pt.dset.descan_shifts.detach().cpu().numpy().astype(np.float64).copy(),
         "constraints": repr(sorted((k, repr(v)) for k, v in pt.constraints.items() if k in ("object", "probe"))),
     }
 
@@ -121,8 +134,8 @@ def compare(t, got, want, what, cls, case, exact_meta=True):
             if not e <= 1e-9:
                 msgs.append(("lr_history", f"learning-rate history of {k!r} differs: {got['lrs'][k].tolist()} vs {want['lrs'][k].tolist()}"))
                 break
-    for name in ("obj", "probe"):
-        e = rel(got[name], want[name])
+    for name in ("obj", "probe", "positions", "descan"):
+        e = rel(got[name], want[name]) if name != "descan" else (float(np.abs(got[name] - want[name]).max()) if got[name].shape == want[name].shape else np.inf)
         t.stat(f"{what}_{name}_rel_err_{cls.get('optimizer', '')}", e if np.isfinite(e) else 1e9)
         if not e <= ARRAY_TOL.get(cls.get("optimizer", ""), 10 * TOL):
             msgs.append((name, f"{name} differs by {e:.3g} (relative to its maximum)"))
@@ -133,7 +146,7 @@ def compare(t, got, want, what, cls, case, exact_meta=True):
     return not msgs
 
 
-def resume(P, pt, path, store, tag, scratch, seed, obj_type, modes):
+def resume(P, pt, path, store, tag, scratch, seed, obj_type, modes, learn=False):
     """Interrupt `pt` here: returns a resumed copy through the given path."""
     from quantem.diffractive_imaging.ptychography import Ptychography
 
@@ -145,7 +158,7 @@ def resume(P, pt, path, store, tag, scratch, seed, obj_type, modes):
         if path == "raw":
             c = Ptychography.from_file(target, auto_reload_dataset=False)
         else:
-            fresh = build(obj_type, modes, seed).dset  # an identically preprocessed dataset, as a user would supply
+            fresh = build(obj_type, modes, seed, learn).dset  # an identically preprocessed dataset, as a user would supply
             c = Ptychography.from_file(target, dset=fresh)
         if os.path.isdir(target):
             shutil.rmtree(target, ignore_errors=True)
@@ -157,32 +170,35 @@ def resume(P, pt, path, store, tag, scratch, seed, obj_type, modes):
 
 def w_config(item, seed=0, n=4, scratch="/tmp"):
     """One shard: a configuration x one resume path (all split points), or x "pairs" (all pairs of split points)."""
-    obj_type, modes, okind, sname, part = item
+    obj_type, modes, okind, sname, part = item[:5]
+    learn = bool(item[5]) if len(item) > 5 else False
     pairs = part == "pairs"
     paths = [] if pairs else [PATHS[int(part)]]
     t = Tally()
-    base = {"obj_type": obj_type, "modes": modes, "optimizer": okind, "scheduler": sname, "n": n}
-    cls0 = {"optimizer": okind, "scheduler": sname}
+    base = {"obj_type": obj_type, "modes": modes, "optimizer": okind, "scheduler": sname, "n": n, "learn_dataset": learn}
+    cls0 = {"optimizer": okind, "scheduler": sname, "learn_dataset": learn}
     sub = os.path.join(scratch, f"c05-{os.getpid()}")
     os.makedirs(sub, exist_ok=True)
     try:
         with warnings.catch_warnings():
             warnings.simplefilter("ignore")
             # the oracle: an uninterrupted run that is never saved or cloned
-            ref = start(build(obj_type, modes, seed), okind, sname)
+            ref = start(build(obj_type, modes, seed, learn), okind, sname, learn)
             ref.reconstruct(num_iters=n)
             R = observe(ref)
             if not (R["losses"][0] > 0 and np.all(np.isfinite(R["losses"])) and abs(R["losses"][-1] - R["losses"][0]) > 1e-6 * R["losses"][0]):
                 raise Broken(f"reference run is degenerate: losses {R['losses']}")
-            Pb = build(obj_type, modes, seed)
-            b = start(Pb, okind, sname)
+            if learn and float(np.abs(R["positions"] - observe(start(build(obj_type, modes, seed, learn), okind, sname, learn))["positions"]).max()) == 0.0:
+                raise Broken("learnable scan positions did not move during the reference run: the dataset dimension is vacuous")
+            Pb = build(obj_type, modes, seed, learn)
+            b = start(Pb, okind, sname, learn)
             for k in range(0, n + 1) if paths else []:
                 saved = observe(b)
                 for path, store in paths:
                     case = dict(base, k=k, path=path, store=store)
                     cls = dict(cls0, path=path)
                     try:
-                        c = resume(Pb, b, path, store, f"k{k}-{path}-{store}", sub, seed, obj_type, modes)
+                        c = resume(Pb, b, path, store, f"k{k}-{path}-{store}", sub, seed, obj_type, modes, learn)
                         ok_now = compare(t, observe(c), saved, "reloaded_equals_saved", cls, case)
                         c.reconstruct(num_iters=n - k)
                         compare(t, observe(c), R, "resumed_equals_uninterrupted", cls, case)
@@ -199,14 +215,16 @@ def w_config(item, seed=0, n=4, scratch="/tmp"):
             if pairs:
                 for k1, k2 in itertools.combinations(range(0, n + 1), 2):
                     for (p1, s1), (p2, s2) in [(("raw", "zip"), ("noraw_dset", "dir")), (("clone", "-"), ("raw", "dir")), (("noraw_dset", "zip"), ("clone", "-"))]:
+                        if learn and "noraw_dset" in (p1, p2):
+                            p1, s1, p2, s2 = ("raw", "dir", "clone", "-") if p1 == "raw" else ("clone", "-", "raw", "zip")
                         case = dict(base, k=[k1, k2], path=[p1, p2], store=[s1, s2])
                         cls = dict(cls0, path=f"{p1}+{p2}")
                         try:
-                            a = start(build(obj_type, modes, seed), okind, sname)
+                            a = start(build(obj_type, modes, seed, learn), okind, sname, learn)
                             a.reconstruct(num_iters=k1)
-                            c1 = resume(None, a, p1, s1, f"p{k1}-{k2}-a", sub, seed, obj_type, modes)
+                            c1 = resume(None, a, p1, s1, f"p{k1}-{k2}-a", sub, seed, obj_type, modes, learn)
                             c1.reconstruct(num_iters=k2 - k1)
-                            c2 = resume(None, c1, p2, s2, f"p{k1}-{k2}-b", sub, seed, obj_type, modes)
+                            c2 = resume(None, c1, p2, s2, f"p{k1}-{k2}-b", sub, seed, obj_type, modes, learn)
                             c2.reconstruct(num_iters=n - k2)
                             compare(t, observe(c2), R, "resumed_twice_equals_uninterrupted", cls, case)
                         except Broken:
@@ -253,7 +271,14 @@ def run(ctx):
     ctx.selftest(once)
     configs = [(o, m, ok, sn) for (o, m), ok, sn in lattice(q)]
     parts = list(range(len(PATHS))) + ([] if q else ["pairs"])
-    items = [c + (p,) for c in configs for p in parts]
+    items = [c + (p, False) for c in configs for p in parts]
+    # learnable dataset parameters (scan positions, descan): the dataset model then carries optimizer state of its own
+    learn_cfgs = [("complex", 1, "adam", "exp"), ("potential", 2, "sgd", "none")] if q else [(o, m, ok, sn) for (o, m) in [("complex", 1), ("potential", 2)] for ok in ("sgd", "adam", "adam_eps") for sn in ("none", "exp", "linear")]
+    # with learnable dataset parameters only the paths that save the reconstruction TOGETHER WITH ITS DATA (the property's
+    # wording) and clone() are judged: a save without raw data does not store the dataset model, hence not its optimizer
+    # state either (observed: the 'dataset' learning-rate history is lost on that path) — outside the statement.
+    learn_parts = [p for p in parts if p == "pairs" or PATHS[p][0] != "noraw_dset"]
+    items += [c + (p, True) for c in learn_cfgs for p in learn_parts]
     ctx.coverage["bounds"] = {"iterations": n, "splits": list(range(n + 1)), "paths": [f"{p}/{s}" for p, s in PATHS], "configs": len(configs), "pairs_of_splits": not q}
     ctx.pmap(w_config, items, chunk=1, label="resume lattice", seed=ctx.seed, n=n, scratch=ctx.scratch)
 
@@ -263,7 +288,7 @@ def replay(ctx, case):
         part = "pairs"
     else:
         part = [i for i, (p, s) in enumerate(PATHS) if p == case["path"] and s == case["store"]][0]
-    t = w_config((case["obj_type"], case["modes"], case["optimizer"], case["scheduler"], part), seed=ctx.seed, n=case["n"], scratch=ctx.scratch)
+    t = w_config((case["obj_type"], case["modes"], case["optimizer"], case["scheduler"], part, bool(case.get("learn_dataset"))), seed=ctx.seed, n=case["n"], scratch=ctx.scratch)
     want = (case.get("k"), case.get("path"), case.get("store"))
     for f in t.fails:
         c = f["case"]
